@@ -224,7 +224,7 @@ LEVELS = {
     'C02': dict(
         text='Machine-checked Coq theorem: in every state reachable by any well-formed scenario (initialisation, calls, user events, steps, runs, any tie-break weights), for every part identity, '
              'times generated = times inside a device + times delivered to a sink + times lost to a failure, and no identity is generated twice (C02_conservation_always), proved through the recursive hand-over (give/accept), '
-             'the frame of the offering phase and census-neutrality of all other steps; plus the single-slot invariant and the guards of every device change.',
+             'the frame of the offering phase and census-neutrality of all other steps; plus the single-slot invariant, the guards of every device change, and the budget clause: a source\'s supplied-parts counter never exceeds its budget under any schedule of adjustments (C02_supplied_within_budget).',
         design_ref='DESIGN.md sections 0.3 and 8, C02', technique='Coq proof (per-device invariants over guarded transformers, induction over events) + lock-step correspondence + census monitor',
         note='The ghost lists made/delivered/lost live in the model only (never read by it). Trusted: Coq kernel, pyfacts.py, extraction + OCaml driver, Python harness.'),
     'C05': dict(
